@@ -93,7 +93,7 @@ def make_b(w, q):
 
 def b_ops(scenario):
     """construct / reset / step of the second environment (its draws are its own)"""
-    envb = m_env.NASimEnv(scenario, fully_obs=True, flat_obs=False)
+    envb = m_env.NASimEnv(scenario, fully_obs=False, flat_obs=False)
     envb.reset()
     acts = [a for a in envb.action_space.actions if a.is_exploit()] or list(envb.action_space.actions)
     saved = npmodel.random
